@@ -40,10 +40,10 @@ def parse_trace(path):
     return out
 
 def quoted(args):
-    return [bytes(s, "utf-8").decode("unicode_escape").encode("latin-1").decode("utf-8", "replace") for s in re.findall(r'"((?:[^"\\]|\\.)*)"', args)]
+    return [bytes(s, "utf-8").decode("unicode_escape").encode("latin-1").decode("utf-8", "surrogateescape") for s in re.findall(r'"((?:[^"\\]|\\.)*)"', args)]
 
 def unesc(s):
-    try: return bytes(s, "utf-8").decode("unicode_escape").encode("latin-1").decode("utf-8", "replace")
+    try: return bytes(s, "utf-8").decode("unicode_escape").encode("latin-1").decode("utf-8", "surrogateescape")
     except Exception: return s
 
 def fd_paths(text):
